@@ -135,7 +135,7 @@ class MasterWorld:
         self.cellmonitors = cfg.get('cellmonitors', [])
         self.down_since_L = {}
         self.marked = set()
-        self.readd_unhandled = False
+        self.api_deleted = set()
         self.truth = {}         # server -> 'up' | 'down' | 'frozen' (harness truth)
         self.pending_truth = []  # freeze/unfreeze events not yet processed
         self.bl_idx = 0
@@ -165,9 +165,14 @@ class MasterWorld:
 
     @property
     def exception_site_suffix(self):
-        if self.readd_unhandled:
-            return (' [server deleted and re-created before the master '
-                    'handled the deletion]')
+        # masterapi.delete_server removed /placement/<server> while the
+        # master still holds that server with instances on it
+        for name in self.api_deleted:
+            srv = self.master.servers.get(name)
+            if srv is not None and srv.apps:
+                return (' [placement records removed by masterapi.'
+                        'delete_server before the master handled the '
+                        'deletion]')
         return ''
 
     def flag(self, clause, site, detail):
@@ -219,7 +224,7 @@ class MasterWorld:
         self.records_before_start = sorted(_mm.placement_dump(self))
         m = self.new_master()
         self.undelivered = []
-        self.readd_unhandled = False
+        self.api_deleted = set()
         m.load_model()
         self._init_schedule()
         self.after_cycle('init_schedule')
@@ -327,6 +332,9 @@ class MasterWorld:
             m = getattr(self, 'master', None)
             if m is not None and getattr(m, 'cell', None) is not None:
                 cellworld.normalise_hidden(m.cell)
+                self.api_deleted = {
+                    n for n in self.api_deleted
+                    if n in m.servers and m.servers[n].apps}
 
     def _apply(self, ev):
         if self.dead:
@@ -378,6 +386,9 @@ class MasterWorld:
             self.srv_variant[name] = v
             self.deliver(z.EVENTS)
         elif kind == 'srv-':
+            srv = self.master.servers.get(body[1])
+            if srv is not None and srv.apps:
+                self.api_deleted.add(body[1])
             masterapi.delete_server(admin, body[1])
             if admin.exists(z.path.server_presence(body[1])):
                 admin.delete(z.path.server_presence(body[1]))
@@ -385,11 +396,6 @@ class MasterWorld:
             self.deliver(z.EVENTS, z.SERVER_PRESENCE)
         elif kind == 'srv+':
             name, v = body[1], body[2]
-            srv = self.master.servers.get(name)
-            if srv is not None and srv.apps:
-                # the admin re-creates a server whose deletion (which removed
-                # its placement records) the master has not handled yet
-                self.readd_unhandled = True
             spec = cfg['servers'][name]
             var = spec['variants'][v]
             masterapi.create_server(admin, name, spec['parent'],
@@ -807,7 +813,7 @@ class MasterWorld:
             tuple(self.children(z.CELL)),
             tuple(sorted(self.children(z.BLACKEDOUT_SERVERS))),
             tuple(sorted(self.truth.items())), self.bl_idx,
-            tuple(self.pending_truth), self.readd_unhandled,
+            tuple(self.pending_truth), tuple(sorted(self.api_deleted)),
             tuple(sorted(ren(n) for n in self.children(z.FINISHED))),
             (tree.find(z.BLACKEDOUT_APPS).data
              if tree.find(z.BLACKEDOUT_APPS) else None),
